@@ -266,7 +266,7 @@ Section Retry.
 
   (* inner calls started so far by a request, oldest first: (start, end or -1) *)
   Definition started_calls (r : rst) : list (Z * Z) :=
-    map (fun cl => (c_start cl, c_end cl)) (rev (log r)) ++
+    map (fun cl => (c_start cl, c_end cl)) (rev' (log r)) ++
     match ph r with PCalling _ => [(cur_start r, -1)] | _ => [] end.
 End Retry.
 
@@ -291,8 +291,10 @@ Arguments obs : clear implicits.
        harness how the requests reach the layer (0: one service per request, 1: all through one
        Retry handle, 2: through clones of one handle) — the model does not depend on it
      backoff_k: a duration (Lib/TokioTime.v ns_of: below 2^40 milliseconds, 2^40 + n = n nanoseconds)
-     pred_mode 0: none, 1: error flag, 2: error code even, 3: never
-     bkind 0: no budget, 1: token bucket (max bmax, initial binit)
+     pred_mode mod 4 = 0: none, 1: error flag, 2: error code even, 3: never; pred_mode / 4 <> 0:
+       attempts beyond L fail retryably for ever instead of behaving like the all-zero entry
+     bkind odd: token bucket (max bmax, initial binit); bkind / 2: builder route, see route_backoff
+     (bkind even: no budget)
      okind 0: Ok(payload), 1: Err(code payload, flag true), 2: Err(code payload, flag false)
      gated 0: the inner call returns at once, 1: when the script says Complete
      ready (before attempt k >= 1) 0: Ready(Ok), 1: Ready(Err(100000+payload, true)), 2: Pending until MakeReady
@@ -301,23 +303,47 @@ Arguments obs : clear implicits.
    (all instants of a script are whole milliseconds).
    trace = per event [r; payload; wake mask; balance (-1 none); deposits; grants; denials]
            (r: -1 no poll, 0 pending, 1 Ok, 2 Err, 9 nothing to poll)
-           ++ per request [number of inner calls; (start, end or -1) per call] ++ [0] *)
+           ++ per request [number of inner calls; (start, end or -1) per call]
+           ++ [0; 0]  (the driver's counters: calls on an instance not polled ready or with a
+                       changed request; retries started before a withdrawal was granted) *)
 Definition Zerr := (Z * bool)%type.
 
-Definition entry (s : list Z) (L : nat) (base : nat) (k j : nat) : Z :=
-  if (k <? L)%nat then zn s (base + 1 + 4 * k + j) else 0.
+(* attempts beyond the table: tail = false: the all-zero entry (Ok 0, immediate, ready);
+   tail = true: a retryable failure for ever (Err(code k, flag true), immediate, ready) *)
+Definition entry (s : list Z) (L : nat) (tail : bool) (base : nat) (k j : nat) : Z :=
+  if (k <? L)%nat then zn s (base + 1 + 4 * k + j)
+  else if tail then match j with O => 1 | S O => Z.of_nat k | _ => 0 end else 0.
+
+(* how the backoff and max_attempts reach the builder (bkind / 2):
+   0 .backoff(FnInterval(table))      1 .fixed_backoff(backoff_0)   2 .exponential_backoff(backoff_0)
+   3 nothing (builder default: exponential from 100 ms)
+   4 RetryLayer::exponential_backoff() (3 attempts, exponential from 100 ms)
+   5 RetryLayer::aggressive() (5, 50 ms)   6 RetryLayer::conservative() (2, 500 ms)
+   ExponentialBackoff::new(d) = d * 2^attempt (exact in f64 for the values scripts use) *)
+Definition route_backoff (s : list Z) (L : nat) (route : Z) (k : nat) : Z :=
+  let d0 := if (0 <? L)%nat then ns_of (zn s 8) else 0 in
+  if route =? 1 then d0 else
+  if route =? 2 then d0 * 2 ^ Z.of_nat k else
+  if (route =? 3) || (route =? 4) then 100 * MS * 2 ^ Z.of_nat k else
+  if route =? 5 then 50 * MS * 2 ^ Z.of_nat k else
+  if route =? 6 then 500 * MS * 2 ^ Z.of_nat k else
+  if (k <? L)%nat then ns_of (zn s (8 + k)) else 0.
+
+Definition route_max (route : Z) (dflt : Z) : Z :=
+  if route =? 4 then 3 else if route =? 5 then 5 else if route =? 6 then 2 else dflt.
 
 Definition outcome_of (kind p : Z) : outcome Z Zerr :=
   if kind =? 0 then Ok p else if kind =? 1 then Fail (p, true) else Fail (p, false).
 
-Definition rin_of (s : list Z) (L : nat) (ma_mode ma_fixed : Z) (base : nat) : rin Z Zerr :=
-  {| r_max := Z.to_nat (if Z.even ma_mode then ma_fixed else zn s base);
-     r_inner := fun k => (negb (entry s L base k 2 =? 0),
-                          outcome_of (entry s L base k 0) (entry s L base k 1));
+Definition rin_of (s : list Z) (L : nat) (tail : bool) (route ma_mode ma_fixed : Z) (base : nat)
+  : rin Z Zerr :=
+  {| r_max := Z.to_nat (route_max route (if Z.even ma_mode then ma_fixed else zn s base));
+     r_inner := fun k => (negb (entry s L tail base k 2 =? 0),
+                          outcome_of (entry s L tail base k 0) (entry s L tail base k 1));
      r_ready := fun k =>
-       let m := entry s L base k 3 in
+       let m := entry s L tail base k 3 in
        if m =? 0 then ROk else
-       if m =? 1 then RErr (100000 + entry s L base k 1, true) else RGated |}.
+       if m =? 1 then RErr (100000 + entry s L tail base k 1, true) else RGated |}.
 
 Definition pred_of (m : Z) : option (Zerr -> bool) :=
   if m =? 0 then None else
@@ -379,11 +405,13 @@ Definition run_script (s : list Z) : list Z :=
   let ma_fixed := zn s 1 in
   let n := Z.to_nat (zn s 6) in
   let L := Z.to_nat (zn s 7) in
-  let c := {| pred := pred_of (zn s 2);
-              backoff := fun k => if (k <? L)%nat then ns_of (zn s (8 + k)) else 0 |} in
-  let b := if zn s 3 =? 0 then None else Some (tb_new (Z.max 0 (zn s 4)) (Z.max 0 (zn s 5))) in
+  let route := zn s 3 / 2 in
+  let tail := negb (zn s 2 / 4 =? 0) in
+  let c := {| pred := pred_of (zn s 2 mod 4);
+              backoff := route_backoff s L route |} in
+  let b := if Z.even (zn s 3) then None else Some (tb_new (Z.max 0 (zn s 4)) (Z.max 0 (zn s 5))) in
   let blk := (1 + 4 * L)%nat in
-  let inps := fun i => rin_of s L ma_mode ma_fixed (8 + L + i * blk) in
+  let inps := fun i => rin_of s L tail route ma_mode ma_fixed (8 + L + i * blk) in
   let evs := evs_of n (chunk2 (skipn (8 + L + n * blk) s)) in
   let '(tr, sf) := run_evs c inps n (init b) evs in
-  tr ++ flat_map (fun i => calls_ints (reqs sf i)) (seq 0 n) ++ [0].
+  tr ++ flat_map (fun i => calls_ints (reqs sf i)) (seq 0 n) ++ [0; 0].
